@@ -52,6 +52,9 @@ def main(run: Run):
                                            "inputs_skipped_because_the_solver_left_a_path_undecided": getattr(crosscheck_memory, "skipped", 0)}
     except EngineFault as e:
         run.engine_faults.append(str(e))
+    # "frozen ... by being handed to a bridge": csr.reg.Bridge.__init__ freezes every map it accepts (pyvc, any map)
+    from . import ctor_l1
+    ctor_l1.add_to(run, ["reg_bridge_init_freezes"])
     from . import memtrees
     memtrees.run_bounded(run, "history", run.tier, forced=bool(run.undecided) or any(o.status == "undecided" for o in run.obligations))
     for o in obs[:6]:
